@@ -55,6 +55,7 @@ fn run(req: &Sx) -> String {
                 "D0" => res(entry_D0(&di), |d| format!("{{\"a\":{}}}", d.a.render())),
                 "D1" => res(entry_D1(&di), |d| format!("{{\"ident\":{},\"attrs\":{},\"a\":{},\"b\":{}}}", jstr(&d.ident.to_string()), attrs_json(&d.attrs), d.a.render(), d.b.render())),
                 "D2" => res(entry_D2(&di), |d| format!("{{\"attrs\":{},\"a\":{},\"m\":{}}}", attrs_json(&d.attrs), d.a.render(), d.m.render())),
+                "D3" => res(entry_D3(&di), |d| format!("{{\"attrs\":{},\"a\":{}}}", attrs_json(&d.attrs), d.a.render())),
                 "D4" => res(entry_D4(&di), |d| {
                     let data = match &d.data {
                         darling::ast::Data::Struct(f) => format!("{{\"struct\":{}}}", fields_json(f)),
